@@ -17,7 +17,9 @@
 #include "vh.h"
 #include "ref.h"
 
-static uint64_t calls[8], ref_mismatch = 0;
+#include <time.h>
+static uint64_t calls[8], ref_mismatch = 0, deadline_skipped = 0;
+static time_t deadline = 0;
 static uint32_t cur_a; static const char *cur_op;
 static void desc(char *b, size_t n) { snprintf(b, n, "%s W=8 a=0x%x, every b < 2^16", cur_op, cur_a); }
 
@@ -58,9 +60,11 @@ main(int argc, char **argv) {
 
 	vh_init(argc, argv);
 	vh_set_describer(desc);
+	if (NULL != getenv("C01_DEADLINE")) deadline = (time_t)strtoll(getenv("C01_DEADLINE"), NULL, 10);
 	for (op = 0; op < 6; op ++) for (a = 0; a < 65536; a ++) {
 		uint64_t ok = 0;
 		if (!vh_begin(names[op])) continue;
+		if (deadline && NULL == vh_only_target && time(NULL) > deadline) { deadline_skipped ++; vh_targets[vh_cur].run --; continue; }
 		cur_a = a; cur_op = names[op];
 		for (b = 0; b < 65536; b ++) {
 			uint8_t fill = (b & 1) ? 0xA5 : 0x00;
@@ -113,5 +117,6 @@ main(int argc, char **argv) {
 	for (op = 0; op < 6; op ++)
 		printf("STAT\t%s\tcalls\t%llu\n", names[op], (unsigned long long)calls[op]);
 	printf("NOTE\tref_mismatch=%llu\n", (unsigned long long)ref_mismatch);
+	if (deadline_skipped) printf("NOTE\tdeadline_skipped=%llu\n", (unsigned long long)deadline_skipped);
 	return (vh_finish());
 }
